@@ -83,6 +83,50 @@ def gen_sign_case(r):
     return c, p
 
 
+def gen_signed_sub_case(r):
+    """a tree whose sub-Manifests carry cleartext signatures of their own - good ones and bad ones -, read with verification on"""
+    c = GT.Case()
+    t, files, written = GT.build_consistent(r, c, allow_multi=False, dups=False)
+    subs = sorted({PU.logical(m) for m in written if m != 'Manifest'})
+    kinds = {}
+    for lm in subs:
+        k = r.choice(['plain', 'good', 'bad', 'bad'])
+        kinds[lm] = k
+    tr = {}
+    for lm, k in kinds.items():
+        if k == 'good':
+            tr[lm] = lambda raw: ET.fake_clearsign(raw.decode('utf8'), 'sub').encode('utf8')
+        elif k == 'bad':
+            tr[lm] = lambda raw: ET.fake_clearsign(raw.decode('utf8'), 'sub').replace('FAKESIG', 'NOSIG').encode('utf8')
+    if tr:
+        PU.recompress_tree(t, sorted(written), {}, tr)
+    c.meta['sub_signatures'] = kinds
+    c.meta['mutations'] = []
+    c.meta['order_seed'] = r.randint(0, 3)
+    vpgp = r.random() < 0.8
+    c.opts = (None, False, None, None, 'default', None, None, vpgp)
+    paths = [''] + [d for d in c.meta['dirs'] if d]
+    fl = sorted(files)
+    c.ops = [r.choice([['verify', r.choice(paths), r.choice([0, 1]), []], ['find_path_entry', r.choice(fl + ['absent'])],
+                       ['verify_path', r.choice(fl + ['absent'])], ['entry_dict', r.choice(paths)]]) for _ in range(r.randint(1, 2))]
+    c.hash_names = set(GT.GOOD_HASHES)
+    return c
+
+
+def signed_sub_engine(ctx, n_quick=300, n_thorough=3000):
+    """every Manifest that is read with verification on has its signature judged - a sub-Manifest reached through a
+    matching MANIFEST entry included: a bad signature there is a failure, never accepted silently"""
+    r = ctx.rng('signed-subs')
+    n = n_quick if ctx.tier == 'quick' else n_thorough
+    cases = [gen_signed_sub_case(r) for _ in range(n)]
+    with ET.Scratch() as sc:
+        res = PT.run_cases(ctx, cases, 'tree:signed-sub-manifests', sc)
+    PT.reclassify(ctx, 'a tree with cleartext-signed sub-Manifests read with verification: result differs from the reference')
+    rejected = sum(1 for c, i, m in res if i[0] == 'ok' and any(x[0] == 'err' and x[1][0] == 'OpenPGPVerificationFailure' for x in i[1]))
+    ctx.count('tree:signed-sub-manifests', len(cases), len(cases), dist={'runs_rejecting_a_bad_signature': rejected,
+                                                                         'with_bad_signature': sum(1 for c in cases if 'bad' in c.meta['sub_signatures'].values())})
+
+
 def c14(ctx):
     quick = ctx.tier == 'quick'
     r = ctx.rng('c14')
@@ -175,6 +219,62 @@ def c14(ctx):
               samples=[{'files': pairs[0][0].meta.get('files'), 'sign': pairs[0][0].meta['sign'], 'orig': pairs[0][0].meta['orig'], 'ops': pairs[0][0].ops}],
               dist=st)
     real_gpg(ctx, r, quick)
+    failing_signer(ctx)
+
+
+def failing_signer(ctx):
+    """a signing backend that fails the way gpg does when the key cannot be used at signing time (locked key, agent gone): it has
+    already written the armor header and the cleartext when it exits non-zero.  Saving must raise the signing failure,
+    whatever was written to stdout; exit status 0 is the only success"""
+    import stat as _stat
+    import tempfile
+    import shutil
+    import gemato.openpgp as go
+    import gemato.recursiveloader as rl
+    import gemato.exceptions as ge
+    td = tempfile.mkdtemp(prefix='gv-c14-')
+    st = {'runs': 0, 'failures_reported': 0, 'successes': 0}
+    old = go.GNUPG
+    try:
+        for exitst in (0, 1, 2):
+            for output in ('full', 'partial', 'none'):
+                script = os.path.join(td, f'gpg-{exitst}-{output}')
+                body = {'full': 'printf -- "-----BEGIN PGP SIGNED MESSAGE-----\\nHash: SHA512\\n\\n"; cat; printf -- "-----BEGIN PGP SIGNATURE-----\\n\\nFAKE\\n-----END PGP SIGNATURE-----\\n"',
+                        'partial': 'printf -- "-----BEGIN PGP SIGNED MESSAGE-----\\nHash: SHA512\\n\\n"; cat', 'none': 'cat >/dev/null'}[output]
+                open(script, 'w').write('#!/bin/sh\ncase "$*" in *--clearsign*) ' + body + '; exit ' + str(exitst) + ';; *) exit 0;; esac\n')
+                os.chmod(script, 0o755)
+                tree = os.path.join(td, f'tree-{exitst}-{output}')
+                os.makedirs(tree)
+                open(os.path.join(tree, 'a'), 'w').write('a\n')
+                open(os.path.join(tree, 'Manifest'), 'w').write('')
+                go.GNUPG = script
+                res = 'ok'
+                try:
+                    m = rl.ManifestRecursiveLoader(os.path.join(tree, 'Manifest'), verify_openpgp=False, openpgp_env=go.SystemGPGEnvironment(),
+                                                   sign_openpgp=True, hashes=['SHA1'])
+                    m.update_entries_for_directory('')
+                    m.save_manifests(force=True)
+                except ge.OpenPGPSigningFailure:
+                    res = 'OpenPGPSigningFailure'
+                except Exception as e:
+                    res = type(e).__name__
+                finally:
+                    go.GNUPG = old
+                st['runs'] += 1
+                want = 'ok' if exitst == 0 else 'OpenPGPSigningFailure'
+                if res != want:
+                    ctx.violation('spec', f'the signing backend exited {exitst} after writing {output} output: saving ended with {res}, expected {want} '
+                                  '(a signing failure is an error, never a silently unsigned or half-written Manifest)',
+                                  {'backend_exit': exitst, 'backend_output': output, 'result': res,
+                                   'manifest_written': open(os.path.join(tree, 'Manifest')).read()[:300]})
+                elif want == 'ok':
+                    st['successes'] += 1
+                else:
+                    st['failures_reported'] += 1
+    finally:
+        go.GNUPG = old
+        shutil.rmtree(td, ignore_errors=True)
+    ctx.count('pgp:failing-signer', st['runs'], st['runs'], dist=st)
 
 
 def real_gpg(ctx, r, quick):
